@@ -57,8 +57,17 @@ def make_sample(F, rng, path, nmax):
         spec = zoo.float_spec(rng, n=N, d=D, negatives=not positive, names=names, dt=dt)
         if positive:
             spec['events'] = [[abs(v) + 0.5 for v in row] for row in spec['events']]
-        if rng.random() < 0.3:
+        r_ = rng.random()
+        if r_ < 0.3:
             spec['events'] = [[float(int(v) % 7 + 1) for v in row] for row in spec['events']]   # ties
+        elif r_ < 0.5 and N >= 3:
+            # tight populations (relative spread 3e-4 .. 5e-3 about a large centre): the geometric SD is then within 1e-3 of 1
+            # and exp(s^2) - 1 cancels, so a logarithm taken in the container's own single precision is off by per cents
+            # (round z, C12-z); all positive, so that the geometric statistics are defined
+            cen = [float(10 ** rng.uniform(2, 5)) for _ in range(D)]
+            spr = [float(rng.choice([3e-4, 1e-3, 5e-3])) for _ in range(D)]
+            f_ = np.float32 if dt == 'F' else np.float64
+            spec['events'] = [[float(f_(cen[j] * (1 + spr[j] * rng.standard_normal()))) for j in range(D)] for _ in range(N)]
         if N >= 3 and rng.random() < 0.1:
             spec['events'][int(rng.integers(N))][int(rng.integers(D))] = float('nan')      # a NaN among the recorded values
         spec['byteord'] = bo
